@@ -386,7 +386,8 @@ def run(rep, tier):
     # K4 (dynamic dispatch) is in the quick tier too: it is the only configuration in which both kernels are compiled
     # in one translation unit, so per-kernel macros (VEC_LEN, VEC_FULL_MASK) can leak from one into the other
     # K8: dynamic dispatch on an SSE4.2 baseline - compile-time ISA macros say SSE while the AVX2 kernel can be the one that runs
-    configs = [('K1', False), ('K2', True), ('K4', False), ('K8', False)] if tier == 'quick' else [('K1', False), ('K2', True), ('K3', False), ('K4', False), ('K8', False)]
+    # K9: the SSE kernel in a sanitizer build (its own detection of the sanitizer macros)
+    configs = [('K1', False), ('K2', True), ('K4', False), ('K8', False), ('K9', True)] if tier == 'quick' else [('K1', False), ('K2', True), ('K3', False), ('K4', False), ('K8', False), ('K9', True)]
     for cfg, san in configs:
         facts = get_facts(cfg)
         rep.unit(facts)
